@@ -496,6 +496,13 @@ def run(run):
                           'version: "3"\n/* %s */ impl p for A { k: "%s", }' % (sur, sur),
                           sur, 'version: "%s"' % sur]:
                     judge(run, "surrogate", string_parse(t), t)
+            # characters that mean something to string formatting (%-style, str.format, f-string, Template), as the
+            # first unexpected character of a syntax error and inside literals that error messages echo
+            for fc in ["%", "%s", "%d", "%(x)s", "100%", "%%", "{", "}", "{}", "{0}", "{x}", "{0.__class__}", "$x", "${x}", "\\N{dash}", "%n", "{:>99999999}"]:
+                for t in ['version: "3"\n' + fc, 'version: "3"\nstruct A { a @0: u8 | unit(' + fc + '), }', 'version: "3"\nenum E { A = "' + fc + '", }',
+                          'version: "3"\nstruct A { a @"' + fc + '": u8, }', 'version: "3"\nstruct A { a @0: Missing' + fc.replace("%", "") + ', }' if fc.isalnum() else 'version: "3"\nimpl p for A { k: ' + fc + ' }',
+                          'version: "' + fc + '"', 'version: "3"\nstruct A { a @0: u8 | ' + fc + '("x"), }']:
+                    judge(run, "format-chars", string_parse(t), t)
             for t in ["", " ", "\n", "\x00", "﻿", "//", "/*", "/* */", "version", "version:", 'version: "3', 'version: "3"', 'version: "3"\n' * 3]:
                 judge(run, "tiny", string_parse(t), t)
         recursion_fault_sweep(run)
